@@ -5,6 +5,14 @@
 // exchange chunk lists in both directions at once; one side finishes first with a full close or a
 // half-close. Every schedule within the deviation bound is executed; at the first quiescent point (no
 // virtual time has passed, so no idle-timeout could have fired) the statement's clauses are evaluated.
+//
+// The coverage audit (AUDIT.md) added, as further fields of the scenario: the capability class of the accepted and
+// of the dialled connection (conns.go), a downstream proxy that fails or refuses the CONNECT, SetTimeout with tunnels
+// that outlive it, bounded socket buffers with a stalled reader, exchanges before the CONNECT on the same
+// connection, other spellings of the request, a second tunnel at the same time, both ends finishing together, and
+// the oracle clauses eof_spurious / eof_unclean / release after a 502. Their signatures lead with the family name.
+//
+// Development aids: C04_ONLY=<substring of the scenario description>, C04_BOUND=<n>, C04_LIST=1, C04_STATS=1.
 package main
 
 import (
@@ -22,6 +30,7 @@ import (
 	"strings"
 	"time"
 
+	"github.com/google/martian/v3/trafficshape"
 	"github.com/google/martian/v3/zzverif/simnet"
 	"github.com/google/martian/v3/zzverif/vrt"
 
@@ -31,13 +40,13 @@ import (
 )
 
 type scenario struct {
-	Head      int    // 0 head alone, 1 head+first chunk in one segment, 2 head split mid-line, 3 first chunk written before the 200 is read
+	Head      int    // 0 head alone, 1 head+first chunk in one segment, 2 head split mid-line, 3 first chunk written before the 200 is read, 4 head split mid-line and its second part shares a segment with the first chunk
 	CChunks   []int  // client payload chunk sizes
 	TChunks   []int  // target payload chunk sizes
 	Initiator string // "client" or "target": who finishes first
 	Mode      string // "full" close or "half" close (CloseWrite, keep reading)
 	DialErr   bool
-	ShortRead bool // proxy-side reads are short-read choice points
+	ShortRead bool   // proxy-side reads are short-read choice points
 	PingPong  bool   // request/response conversation: each side sends its next chunk only after the other's previous chunk has arrived
 	Route     string // "" direct dial; "downstream": via a downstream proxy; "downstream-coalesced": its 200 shares a segment with the first target bytes
 	Pause     int    // seconds of (virtual) silence each side keeps before writing its last chunk; 0 = none
@@ -46,16 +55,153 @@ type scenario struct {
 	// end-of-stream promptly and both connections must be released.
 	AbortDuringDial string
 	DownStatus      string // status line the downstream proxy confirms the tunnel with (default "200 OK"): any 2xx means tunnel mode
+
+	// ---- dimensions added by the audit (zero values = the behaviour of the scenarios above) ----
+
+	// ClientConn / DialConn: capability class of the connection the proxy accepts / dials: "" = TCP-like (ReadFrom,
+	// WriteTo, CloseWrite), "cw" = net.Conn + CloseWrite (like *tls.Conn), "bare" = net.Conn only, "ts" (client side
+	// only) = a real trafficshape.Listener with default settings in front of the TCP-like connection.
+	ClientConn string `json:",omitempty"`
+	DialConn   string `json:",omitempty"`
+	// DownFail: the downstream proxy does not confirm the tunnel: "close" (closes without answering), "garbage"
+	// (answers with something that is not HTTP), "partial" (part of a head, then closes), "refuse:<name>" (a complete
+	// final non-2xx answer, see refusals).
+	DownFail string `json:",omitempty"`
+	Timeout  int    `json:",omitempty"` // SetTimeout(seconds); 0 = the default of 5 minutes
+	Gap      int    `json:",omitempty"` // seconds of (virtual) silence each side keeps before every one of its chunks
+	// Cap bounds every socket buffer of the world (bytes; a write blocks while that many bytes are queued); Stall names
+	// the end that does not start reading before the other end has received everything addressed to it.
+	Cap   int    `json:",omitempty"`
+	Stall string `json:",omitempty"`
+	// Prior: what happened on the client's connection before the CONNECT: "502" (a CONNECT whose dial failed), "get"
+	// (a proxied GET, answered), "get-pipelined" (the GET shares a segment with the CONNECT head).
+	Prior string `json:",omitempty"`
+	// Spelling of the CONNECT request: "" (HTTP/1.1 with Host), "http10", "close" (Connection: close), "proxyconn"
+	// (Proxy-Connection: keep-alive and more headers), "ipv6" (authority [::1]:443).
+	Spelling string `json:",omitempty"`
+	// Second: a second client opens its own tunnel to another target through the same proxy at the same time.
+	Second bool `json:",omitempty"`
+	// ResModErr: the response modifier fails on the CONNECT response (the proxy adds a Warning and carries on).
+	ResModErr bool `json:",omitempty"`
+	// Lite: explored with one deviation less than the tier's bound (secondary combinations; does not change behaviour)
+	Lite bool `json:",omitempty"`
+}
+
+// refusals: final answers of a downstream proxy that declines the tunnel; KeepAlive: it then waits for the next
+// request on the same connection (as HTTP/1.1 proxies do, e.g. after a 407) instead of closing.
+var refusals = map[string]struct {
+	Head, Body string
+	KeepAlive  bool
+}{
+	"403-close":         {"HTTP/1.1 403 Forbidden\r\nContent-Length: 9\r\nConnection: close\r\n\r\n", "forbidden", false},
+	"407-keepalive":     {"HTTP/1.1 407 Proxy Authentication Required\r\nProxy-Authenticate: Basic realm=\"x\"\r\nContent-Length: 4\r\n\r\n", "auth", true},
+	"502-keepalive-0":   {"HTTP/1.1 502 Bad Gateway\r\nContent-Length: 0\r\n\r\n", "", true},
+	"503-keepalive-chk": {"HTTP/1.1 503 Service Unavailable\r\nTransfer-Encoding: chunked\r\n\r\n", "5\r\nlater\r\n0\r\n\r\n", true},
 }
 
 func (s scenario) String() string {
 	if s.DialErr {
-		return "dial-error"
+		if s.Route != "" {
+			return "dial-error route=" + s.Route + s.extra()
+		}
+		return "dial-error" + s.extra()
 	}
 	if s.AbortDuringDial != "" {
 		return fmt.Sprintf("client %ss while the proxy is dialling, route=%s", s.AbortDuringDial, s.Route)
 	}
-	return fmt.Sprintf("head=%d c=%v t=%v first=%s/%s short=%v pingpong=%v route=%s%s pause=%ds", s.Head, s.CChunks, s.TChunks, s.Initiator, s.Mode, s.ShortRead, s.PingPong, s.Route, map[bool]string{true: "(" + s.DownStatus + ")", false: ""}[s.DownStatus != ""], s.Pause)
+	if s.DownFail != "" {
+		return fmt.Sprintf("downstream proxy fails the CONNECT: %s%s", s.DownFail, s.extra())
+	}
+	return fmt.Sprintf("head=%d c=%v t=%v first=%s/%s short=%v pingpong=%v route=%s%s pause=%ds", s.Head, s.CChunks, s.TChunks, s.Initiator, s.Mode, s.ShortRead, s.PingPong, s.Route, map[bool]string{true: "(" + s.DownStatus + ")", false: ""}[s.DownStatus != ""], s.Pause) + s.extra()
+}
+
+// extra renders the audit dimensions that are set.
+func (s scenario) extra() string {
+	out := ""
+	add := func(k string, v interface{}) { out += fmt.Sprintf(" %s=%v", k, v) }
+	if s.ClientConn != "" {
+		add("clientconn", s.ClientConn)
+	}
+	if s.DialConn != "" {
+		add("dialconn", s.DialConn)
+	}
+	if s.Timeout != 0 {
+		add("timeout", fmt.Sprint(s.Timeout, "s"))
+	}
+	if s.Gap != 0 {
+		add("gap", fmt.Sprint(s.Gap, "s"))
+	}
+	if s.Cap != 0 {
+		add("cap", s.Cap)
+	}
+	if s.Stall != "" {
+		add("stall", s.Stall)
+	}
+	if s.Prior != "" {
+		add("prior", s.Prior)
+	}
+	if s.Spelling != "" {
+		add("spelling", s.Spelling)
+	}
+	if s.Second {
+		add("second", true)
+	}
+	if s.ResModErr {
+		add("resmoderr", true)
+	}
+	return out
+}
+
+// classTag is the part of a signature that names the audit dimensions in use.
+func (s scenario) classTag() string {
+	t := ""
+	if s.ClientConn != "" {
+		t += ":clientconn=" + s.ClientConn
+	}
+	if s.DialConn != "" {
+		t += ":dialconn=" + s.DialConn
+	}
+	if s.Gap != 0 {
+		t += ":gaps"
+	}
+	if s.Cap != 0 {
+		t += ":backpressure"
+	}
+	if s.Prior != "" {
+		t += ":prior=" + s.Prior
+	}
+	if s.Spelling != "" {
+		t += ":spelling=" + s.Spelling
+	}
+	if s.Second {
+		t += ":second"
+	}
+	if s.ResModErr {
+		t += ":resmoderr"
+	}
+	return t
+}
+
+// family names the audit family of a scenario ("" for the scenarios that existed before the audit).
+func (s scenario) family() string {
+	if s.DownFail != "" {
+		return "downstream_" + strings.Replace(s.DownFail, ":", "_", 1) + s.classTag()
+	}
+	return strings.TrimPrefix(s.classTag(), ":")
+}
+
+func (s scenario) head() string {
+	switch s.Spelling {
+	case "http10":
+		return "CONNECT target.test:443 HTTP/1.0\r\nX-Conn: 0\r\n\r\n"
+	case "close":
+		return "CONNECT target.test:443 HTTP/1.1\r\nHost: target.test:443\r\nConnection: close\r\nX-Conn: 0\r\n\r\n"
+	case "proxyconn":
+		return "CONNECT target.test:443 HTTP/1.1\r\nHost: target.test:443\r\nUser-Agent: c04\r\nProxy-Connection: keep-alive\r\nX-Conn: 0\r\n\r\n"
+	case "ipv6":
+		return "CONNECT [::1]:443 HTTP/1.1\r\nHost: [::1]:443\r\nX-Conn: 0\r\n\r\n"
+	}
+	return connectHead
 }
 
 func payload(tag byte, sizes []int) [][]byte {
@@ -84,6 +230,15 @@ type side struct {
 	wrDone   bool
 	wrErr    error
 	closed   bool
+	eofTick  int // event number at which the reader saw end-of-stream (0 = never)
+	shutTick int // event number just before this end first shut down its sending direction (0 = never)
+}
+
+// shut notes that this end is about to stop sending (Close, CloseWrite or Abort follows).
+func (s *side) shut() {
+	if s.shutTick == 0 {
+		s.shutTick = vrt.Tick()
+	}
 }
 
 type finding struct{ Sig, Desc string }
@@ -93,12 +248,21 @@ const connectHead = "CONNECT target.test:443 HTTP/1.1\r\nHost: target.test:443\r
 func run(sc scenario) (body func(), check func(r *vrt.Result) []finding) {
 	var w *pworld.World
 	var cs, ts *side
+	var cs2, ts2 *side // the second tunnel (sc.Second)
 	var clientHead string
 	var headStatus int
 	var headWarning string
 	var headErr error
-	var proxyToTarget *simnet.Conn
+	var proxyToTarget, proxyToTarget2 *simnet.Conn
 	var dialStarted, clientGone bool
+	var dials int
+	var priorNote string // "" = the exchange before the CONNECT went as expected
+	var head2Status int
+	var head2Err error
+	// refusal by the downstream proxy: what the client made of the answer
+	var refBody []byte
+	var refBodyErr error
+	var refDone bool
 	type snap struct {
 		cGot, tGot         int
 		cEOF, tEOF         bool
@@ -106,24 +270,40 @@ func run(sc scenario) (body func(), check func(r *vrt.Result) []finding) {
 		srvClosed, pcClose bool
 		handlerDone        bool
 		at                 time.Duration
+		// second tunnel
+		c2Got, t2Got     int
+		c2Done, t2Done   bool
+		srv2Closed, pc2C bool
+		refDone          bool
 	}
 	var prompt, late snap
 	cpay := payload('a', sc.CChunks)
 	tpay := payload('A', sc.TChunks)
+	c2pay := payload('k', []int{4500, 4100})
+	t2pay := payload('K', []int{4300, 4400})
 	takeSnap := func() snap {
 		s := snap{at: vrt.Now()}
 		if cs != nil {
 			s.cGot, s.cEOF, s.cDone = len(cs.got), cs.eof, cs.readDone
+			s.srvClosed = cs.conn.Peer().Closed()
 		}
 		if ts != nil {
 			s.tGot, s.tEOF, s.tDone = len(ts.got), ts.eof, ts.readDone
 		}
-		if len(w.L.Accepted) > 0 {
-			s.srvClosed = w.L.Accepted[0].Closed()
-		}
 		if proxyToTarget != nil {
 			s.pcClose = proxyToTarget.Closed()
 		}
+		if cs2 != nil {
+			s.c2Got, s.c2Done = len(cs2.got), cs2.readDone
+			s.srv2Closed = cs2.conn.Peer().Closed()
+		}
+		if ts2 != nil {
+			s.t2Got, s.t2Done = len(ts2.got), ts2.readDone
+		}
+		if proxyToTarget2 != nil {
+			s.pc2C = proxyToTarget2.Closed()
+		}
+		s.refDone = refDone
 		s.handlerDone = true
 		for _, ti := range vrt.Snapshot() {
 			if strings.Contains(ti.Label, "(*Proxy).Serve") && !ti.Done {
@@ -133,14 +313,22 @@ func run(sc scenario) (body func(), check func(r *vrt.Result) []finding) {
 		return s
 	}
 	// endpoint behaviour shared by both sides
-	runSide := func(s *side, out [][]byte, initiator bool, r io.Reader, need []int) {
+	// also, if set, is called by the writer thread after each of its chunks (and once more, with last=true, when it
+	// has none left): the same thread then writes on behalf of the corresponding end of the second tunnel, so that
+	// both tunnels have bytes in flight in the same direction at the same time without any scheduling deviation.
+	// ready, if set, is awaited before the first chunk.
+	runSide := func(s *side, out [][]byte, initiator bool, mode string, r io.Reader, need []int, stall func() bool, ready func() bool, also func(last bool)) {
 		finish := func() {
 			if s.readDone && s.wrDone && !s.closed {
 				s.closed = true
+				s.shut()
 				s.conn.Close()
 			}
 		}
 		wt := vrt.GoNamed(s.name+"-writer", func() {
+			if ready != nil {
+				vrt.WaitUntil("both-tunnels-up", ready)
+			}
 			for k, ch := range out {
 				if sc.PingPong && k < len(need) {
 					n := need[k]
@@ -149,14 +337,24 @@ func run(sc scenario) (body func(), check func(r *vrt.Result) []finding) {
 				if sc.Pause > 0 && k == len(out)-1 {
 					vrt.Sleep(time.Duration(sc.Pause) * time.Second)
 				}
+				if sc.Gap > 0 {
+					vrt.Sleep(time.Duration(sc.Gap) * time.Second)
+				}
 				if _, err := s.conn.Write(ch); err != nil {
 					s.wrErr = err
 					break
 				}
+				if also != nil {
+					also(false)
+				}
+			}
+			if also != nil {
+				also(true)
 			}
 			s.wrDone = true
 			if initiator {
-				switch sc.Mode {
+				s.shut()
+				switch mode {
 				case "full":
 					s.closed = true
 					s.conn.Close()
@@ -171,6 +369,10 @@ func run(sc scenario) (body func(), check func(r *vrt.Result) []finding) {
 			}
 			finish()
 		})
+		if stall != nil {
+			// this end is busy sending and does not read before the other end has received everything
+			vrt.WaitUntil("stalled-reader", stall)
+		}
 		buf := make([]byte, 65536)
 		for {
 			n, err := r.Read(buf)
@@ -178,6 +380,7 @@ func run(sc scenario) (body func(), check func(r *vrt.Result) []finding) {
 			if err != nil {
 				if err == io.EOF {
 					s.eof = true
+					s.eofTick = vrt.Tick()
 				} else {
 					s.readErr = err
 				}
@@ -189,20 +392,95 @@ func run(sc scenario) (body func(), check func(r *vrt.Result) []finding) {
 			vrt.Join(wt)
 			if !s.closed {
 				s.closed = true
+				s.shut()
 				s.conn.Close()
 			}
 			return
 		}
 		finish()
 	}
+	secondFailed := func() bool {
+		return head2Err != nil || (head2Status != 0 && head2Status/100 != 2)
+	}
+	// driveSecond returns the hook through which the writer thread of an end of the first tunnel also writes the
+	// chunks of the corresponding end of the second tunnel (one per call, the rest and a half-close on the last call)
+	driveSecond := func(end func() *side, chunks [][]byte) func(last bool) {
+		next := 0
+		return func(last bool) {
+			s2 := end()
+			if s2 == nil || s2.wrDone {
+				return
+			}
+			for next < len(chunks) {
+				if _, err := s2.conn.Write(chunks[next]); err != nil {
+					s2.wrErr = err
+					next = len(chunks)
+					break
+				}
+				next++
+				if !last {
+					return
+				}
+			}
+			if last {
+				s2.shut()
+				s2.conn.CloseWrite()
+				s2.wrDone = true
+				vrt.Bump()
+			}
+		}
+	}
+	// readSecond is what an end of the second tunnel does itself: read until end-of-stream, close once its bytes
+	// have been written too
+	readSecond := func(s2 *side, r io.Reader) {
+		buf := make([]byte, 65536)
+		for {
+			n, err := r.Read(buf)
+			s2.got = append(s2.got, buf[:n]...)
+			if err != nil {
+				if err == io.EOF {
+					s2.eof = true
+				} else {
+					s2.readErr = err
+				}
+				break
+			}
+		}
+		s2.readDone = true
+		vrt.WaitUntil("second-written", func() bool { return s2.wrDone })
+		s2.closed = true
+		s2.conn.Close()
+	}
+	initiates := func(who string) bool { return sc.Initiator == who || sc.Initiator == "both" }
 	body = func() {
 		w = pworld.NewWorld()
 		cs, ts, proxyToTarget = nil, nil, nil
+		cs2, ts2, proxyToTarget2 = nil, nil, nil
 		dialStarted, clientGone = false, false
+		dials = 0
+		priorNote = ""
+		head2Status, head2Err = 0, nil
+		refBody, refBodyErr, refDone = nil, nil, false
 		clientHead, headStatus, headWarning, headErr = "", 0, "", nil
+		if sc.ResModErr {
+			w.OnResponse = func(res *http.Response) error {
+				if res.Request != nil && res.Request.Method == "CONNECT" {
+					return errors.New("response modifier failed")
+				}
+				return nil
+			}
+		}
 		w.Proxy.SetDial(func(network, addr string) (net.Conn, error) {
-			if sc.DialErr {
+			dials++
+			if sc.DialErr || (sc.Prior == "502" && dials == 1) {
 				return nil, errors.New("simulated dial failure")
+			}
+			if addr == "other.test:443" {
+				a, b := simnet.Pipe("proxy>target2", "target2")
+				proxyToTarget2 = a
+				ts2 = &side{name: "target2", conn: b}
+				vrt.GoNamed("target2", func() { readSecond(ts2, b) })
+				return a, nil
 			}
 			if sc.AbortDuringDial != "" {
 				dialStarted = true
@@ -211,6 +489,10 @@ func run(sc scenario) (body func(), check func(r *vrt.Result) []finding) {
 			}
 			a, b := simnet.Pipe("proxy>target", "target")
 			a.ShortReads = sc.ShortRead
+			if sc.Cap > 0 {
+				a.SetCapacity(sc.Cap)
+				b.SetCapacity(sc.Cap)
+			}
 			proxyToTarget = a
 			ts = &side{name: "target", conn: b}
 			vrt.GoNamed("target", func() {
@@ -223,6 +505,39 @@ func run(sc scenario) (body func(), check func(r *vrt.Result) []finding) {
 					if err != nil || req.Method != "CONNECT" {
 						ts.readErr = fmt.Errorf("downstream proxy: bad CONNECT: %v", err)
 						ts.readDone, ts.wrDone = true, true
+						b.Close()
+						return
+					}
+					if sc.DownFail != "" {
+						// the downstream proxy does not confirm the tunnel
+						waitEOF := false
+						switch {
+						case sc.DownFail == "close":
+						case sc.DownFail == "garbage":
+							b.Write([]byte("SSH-2.0-OpenSSH_8.9\r\n"))
+							waitEOF = true
+						case sc.DownFail == "partial":
+							b.Write([]byte("HTTP/1.1 200 OK\r\nX-Pa"))
+						default:
+							rf := refusals[strings.TrimPrefix(sc.DownFail, "refuse:")]
+							b.Write([]byte(rf.Head + rf.Body))
+							waitEOF = rf.KeepAlive
+						}
+						ts.wrDone = true
+						if waitEOF {
+							// keeps the connection open for whatever comes next; closes when its peer does
+							buf := make([]byte, 4096)
+							for {
+								n, err := br.Read(buf)
+								ts.got = append(ts.got, buf[:n]...)
+								if err != nil {
+									ts.eof = err == io.EOF
+									break
+								}
+							}
+						}
+						ts.readDone = true
+						ts.closed = true
 						b.Close()
 						return
 					}
@@ -250,15 +565,60 @@ func run(sc scenario) (body func(), check func(r *vrt.Result) []finding) {
 				if len(out) < len(sc.TChunks) {
 					need = need[len(sc.TChunks)-len(out):]
 				}
-				runSide(ts, out, sc.Initiator == "target", rd, need)
+				var stall func() bool
+				if sc.Stall == "target" {
+					stall = func() bool { return cs != nil && (len(cs.got) >= len(concat(tpay)) || cs.readDone) }
+				}
+				var ready func() bool
+				var also func(bool)
+				if sc.Second {
+					ready = func() bool { return ts2 != nil || secondFailed() }
+					also = driveSecond(func() *side { return ts2 }, t2pay)
+				}
+				runSide(ts, out, initiates("target"), sc.Mode, rd, need, stall, ready, also)
 			})
-			return a, nil
+			return wrapConn(a, sc.DialConn), nil
 		})
 		if sc.Route != "" {
 			u, _ := url.Parse("http://downstream.test:3128")
 			w.Proxy.SetDownstreamProxy(u)
 		}
+		if sc.Timeout > 0 {
+			w.Proxy.SetTimeout(time.Duration(sc.Timeout) * time.Second)
+		}
+		switch sc.ClientConn {
+		case "":
+		case "ts":
+			w.Wrap = func(l net.Listener) net.Listener { return trafficshape.NewListener(l) }
+		default:
+			w.Wrap = func(l net.Listener) net.Listener { return wrapListener{l, sc.ClientConn} }
+		}
 		w.Start()
+		if sc.Second {
+			vrt.GoNamed("client2", func() {
+				cl, err := w.Dial("client2")
+				if err != nil {
+					head2Err = err
+					return
+				}
+				cs2 = &side{name: "client2", conn: cl.C}
+				cl.Send("CONNECT other.test:443 HTTP/1.1\r\nHost: other.test:443\r\nX-Conn: 1\r\n\r\n")
+				br := bufio.NewReader(cl.C)
+				res, err := http.ReadResponse(br, &http.Request{Method: "CONNECT"})
+				if err != nil {
+					head2Err = err
+					cs2.readDone, cs2.wrDone = true, true
+					return
+				}
+				head2Status = res.StatusCode
+				if res.StatusCode/100 != 2 {
+					cs2.readDone, cs2.wrDone = true, true
+					cl.C.Close()
+					return
+				}
+				readSecond(cs2, br)
+			})
+		}
 		vrt.GoNamed("client", func() {
 			cl, err := w.Dial("client")
 			if err != nil {
@@ -266,9 +626,14 @@ func run(sc scenario) (body func(), check func(r *vrt.Result) []finding) {
 				return
 			}
 			cl.C.Peer().ShortReads = sc.ShortRead
+			if sc.Cap > 0 {
+				cl.C.SetCapacity(sc.Cap)
+				cl.C.Peer().SetCapacity(sc.Cap)
+			}
 			cs = &side{name: "client", conn: cl.C}
+			chead := sc.head()
 			if sc.AbortDuringDial != "" {
-				cl.Send(connectHead)
+				cl.Send(chead)
 				vrt.WaitUntil("dial-started", func() bool { return dialStarted })
 				if sc.AbortDuringDial == "abort" {
 					cl.C.Abort()
@@ -280,28 +645,85 @@ func run(sc scenario) (body func(), check func(r *vrt.Result) []finding) {
 				vrt.Bump()
 				return
 			}
+			br := bufio.NewReader(cl.C)
+			lastAnswerCloses := false
+			readPlain := func(what string, want int) bool {
+				res, err := http.ReadResponse(br, &http.Request{Method: what})
+				if err != nil {
+					priorNote = fmt.Sprintf("answer to the earlier %s unreadable: %v", what, err)
+					return false
+				}
+				b, err := io.ReadAll(res.Body)
+				if err != nil || res.StatusCode != want {
+					priorNote = fmt.Sprintf("answer to the earlier %s: status %d (want %d), body %q, err %v", what, res.StatusCode, want, b, err)
+					return false
+				}
+				lastAnswerCloses = res.Close
+				return true
+			}
+			prefix := ""
+			ok := true
+			switch sc.Prior {
+			case "502":
+				cl.Send(chead)
+				ok = readPlain("CONNECT", 502)
+				if ok && lastAnswerCloses {
+					// the proxy announced that it closes the connection after the 502 (it may): like any client, go on
+					// with a new connection
+					cl.C.Close()
+					if cl, err = w.Dial("client"); err != nil {
+						headErr = err
+						return
+					}
+					cs.conn = cl.C
+					br = bufio.NewReader(cl.C)
+				}
+			case "get":
+				cl.Send(pworld.GetRequest("0", "/before"))
+				ok = readPlain("GET", 200)
+			case "get-pipelined":
+				prefix = pworld.GetRequest("0", "/before")
+			}
+			if !ok {
+				cs.readDone, cs.wrDone = true, true
+				cl.C.Close()
+				return
+			}
 			rest := cpay
 			switch sc.Head {
 			case 0:
-				cl.Send(connectHead)
+				cl.Send(prefix + chead)
 			case 1:
 				if len(rest) > 0 {
-					cl.Send(connectHead + string(rest[0]))
+					cl.Send(prefix + chead + string(rest[0]))
 					rest = rest[1:]
 				} else {
-					cl.Send(connectHead)
+					cl.Send(prefix + chead)
 				}
 			case 2:
-				cl.Send(connectHead[:17])
-				cl.Send(connectHead[17:])
+				cl.Send(prefix + chead[:17])
+				cl.Send(chead[17:])
 			case 3:
-				cl.Send(connectHead)
+				cl.Send(prefix + chead)
 				if len(rest) > 0 {
 					cl.C.Write(rest[0])
 					rest = rest[1:]
 				}
+			case 4:
+				// head split mid-line, its second part shares a segment with the first payload bytes
+				cl.Send(prefix + chead[:17])
+				if len(rest) > 0 {
+					cl.Send(chead[17:] + string(rest[0]))
+					rest = rest[1:]
+				} else {
+					cl.Send(chead[17:])
+				}
 			}
-			br := bufio.NewReader(cl.C)
+			if sc.Prior == "get-pipelined" && !readPlain("GET", 200) {
+				cs.readDone, cs.wrDone = true, true
+				cl.C.Close()
+				return
+			}
 			res, err := http.ReadResponse(br, &http.Request{Method: "CONNECT"})
 			if err != nil {
 				headErr = err
@@ -312,7 +734,11 @@ func run(sc scenario) (body func(), check func(r *vrt.Result) []finding) {
 			headWarning = res.Header.Get("Warning")
 			clientHead = res.Status
 			if res.StatusCode/100 != 2 {
+				// a final answer: the client reads it to its end (however that end is delimited), then closes
+				refBody, refBodyErr = io.ReadAll(res.Body)
+				refDone = true
 				cs.readDone, cs.wrDone = true, true
+				cs.closed = true
 				cl.C.Close()
 				return
 			}
@@ -328,17 +754,36 @@ func run(sc scenario) (body func(), check func(r *vrt.Result) []finding) {
 			if len(rest) < len(sc.CChunks) {
 				need = need[len(sc.CChunks)-len(rest):]
 			}
-			runSide(cs, rest, sc.Initiator == "client", br, need)
+			var stall func() bool
+			if sc.Stall == "client" {
+				stall = func() bool { return ts != nil && (len(ts.got) >= len(concat(cpay)) || ts.readDone) }
+			}
+			var ready func() bool
+			var also func(bool)
+			if sc.Second {
+				ready = func() bool { return (cs2 != nil && head2Status/100 == 2) || secondFailed() }
+				also = driveSecond(func() *side { return cs2 }, c2pay)
+			}
+			runSide(cs, rest, initiates("client"), sc.Mode, br, need, stall, ready, also)
 		})
 		vrt.WaitQuiescent()
-		if sc.Pause > 0 {
-			// the tunnel stays silent for sc.Pause seconds (well below the proxy's idle timeout) before the last
-			// chunks are written; "promptly" is then judged one virtual second after the pause has ended
-			vrt.Sleep(time.Duration(sc.Pause)*time.Second + time.Second)
+		if sc.Pause > 0 || sc.Gap > 0 {
+			// the tunnel stays silent for a while (each silence well below the proxy's idle timeout) before chunks are
+			// written; "promptly" is then judged one virtual second after the last pause can have ended
+			d := time.Duration(sc.Pause) * time.Second
+			if sc.Gap > 0 {
+				d = time.Duration(sc.Gap*(len(sc.CChunks)+len(sc.TChunks))) * time.Second
+			}
+			vrt.Sleep(d + time.Second)
 			vrt.WaitQuiescent()
 		}
 		prompt = takeSnap()
-		vrt.Sleep(11 * time.Minute)
+		// well past the proxy's timeout (5 minutes unless the scenario sets one)
+		if sc.Timeout > 0 {
+			vrt.Sleep(time.Duration(2*sc.Timeout+10) * time.Second)
+		} else {
+			vrt.Sleep(11 * time.Minute)
+		}
 		vrt.WaitQuiescent()
 		late = takeSnap()
 		if os.Getenv("VERIF_STACKS") != "" {
@@ -354,21 +799,113 @@ func run(sc scenario) (body func(), check func(r *vrt.Result) []finding) {
 		if ts != nil {
 			vrt.Log("target got=%d eof=%v rerr=%v werr=%v", len(ts.got), ts.eof, ts.readErr, ts.wrErr)
 		}
+		if sc.Second {
+			vrt.Log("head2=%d err=%v", head2Status, head2Err)
+			if cs2 != nil {
+				vrt.Log("client2 got=%d eof=%v rerr=%v werr=%v", len(cs2.got), cs2.eof, cs2.readErr, cs2.wrErr)
+			}
+			if ts2 != nil {
+				vrt.Log("target2 got=%d eof=%v rerr=%v werr=%v", len(ts2.got), ts2.eof, ts2.readErr, ts2.wrErr)
+			}
+		}
+		if cs != nil && ts != nil {
+			vrt.Log("eof-after-shutdown client=%v target=%v", !cs.eof || (ts.shutTick != 0 && cs.eofTick > ts.shutTick), !ts.eof || (cs.shutTick != 0 && ts.eofTick > cs.shutTick))
+		}
+		if sc.Prior != "" {
+			vrt.Log("prior=%q", priorNote)
+		}
+		if sc.DownFail != "" {
+			vrt.Log("refusal body=%q err=%v done=%v", refBody, refBodyErr, refDone)
+		}
 	}
 	check = func(r *vrt.Result) []finding {
 		var out []finding
-		add := func(sig, format string, a ...interface{}) { out = append(out, finding{sig, fmt.Sprintf(format, a...)}) }
+		// Signatures of the audit families lead with the family ("clientconn=cw:dialconn=bare/lost:client_to_target:…",
+		// "downstream_close/release_never"): known findings are matched by prefix, so one line can name a family.
+		fam := sc.family()
+		add := func(sig, format string, a ...interface{}) {
+			if fam != "" {
+				if i := strings.Index(sig+":", ":"+fam+":"); i >= 0 {
+					sig = sig[:i] + sig[i+1+len(fam):]
+				}
+				sig = fam + "/" + sig
+			}
+			out = append(out, finding{sig, fmt.Sprintf(format, a...)})
+		}
 		if r.Outcome != "ok" {
 			add("outcome:"+r.Outcome, "execution ended with %s: %s", r.Outcome, firstLine(r.Panic))
 			return out
 		}
+		// release of everything the proxy holds for the (first) client
+		release := func(tag string, outbound bool) {
+			ok := func(s snap) bool { return s.srvClosed && (!outbound || s.pcClose) && s.handlerDone }
+			if !ok(prompt) {
+				if ok(late) {
+					add("release_late:"+tag, "proxy released the connections only after the idle timeout (client side closed=%v, target side closed=%v, handler done=%v at quiescence)", prompt.srvClosed, prompt.pcClose, prompt.handlerDone)
+				} else {
+					add("release_never:"+tag, "proxy never released the connections (client side closed=%v, target side closed=%v, handler done=%v)", late.srvClosed, late.pcClose, late.handlerDone)
+				}
+			}
+		}
 		if sc.DialErr {
 			if headStatus != 502 || headWarning == "" {
 				add("dial_error:no_502_warning", "CONNECT to an unreachable target answered %d (Warning=%q, err=%v)", headStatus, headWarning, headErr)
+				return out
 			}
-			if !late.srvClosed && !prompt.srvClosed {
-				// connection may legitimately stay open for another request after a 502; the client closed it.
+			// the client has read the 502 and closed its connection: nothing may be held any longer
+			release("dial_error"+sc.classTag(), false)
+			return out
+		}
+		if sc.DownFail != "" {
+			tag := "downstream_" + strings.Replace(sc.DownFail, ":", "_", 1) + sc.classTag()
+			if ts == nil {
+				add("harness:no_dial:"+tag, "the proxy never dialled the downstream proxy")
+				return out
 			}
+			if !strings.HasPrefix(sc.DownFail, "refuse:") {
+				// no answer worth the name: the target is unreachable
+				if headStatus != 502 || headWarning == "" {
+					add("dial_error:no_502_warning:"+tag, "the downstream proxy failed the CONNECT (%s); the client got status=%d Warning=%q err=%v", sc.DownFail, headStatus, headWarning, headErr)
+					return out
+				}
+			} else {
+				rf := refusals[strings.TrimPrefix(sc.DownFail, "refuse:")]
+				want := 0
+				fmt.Sscanf(rf.Head, "HTTP/1.1 %d", &want)
+				if headErr != nil || headStatus/100 == 2 || headStatus == 0 {
+					add("refusal:no_final_status:"+tag, "the downstream proxy refused the CONNECT with %d; the client got status=%d err=%v", want, headStatus, headErr)
+					return out
+				}
+				if headStatus != want && !(headStatus == 502 && headWarning != "") {
+					add("refusal:status_changed:"+tag, "the downstream proxy refused the CONNECT with %d; the client got %d", want, headStatus)
+				}
+				if !prompt.refDone {
+					if late.refDone {
+						add("refusal:end_late:"+tag, "the client could tell where the refusal (%d) ends only after the idle timeout", headStatus)
+					} else {
+						add("refusal:end_never:"+tag, "the client never saw the end of the refusal (%d): neither framing nor end-of-stream", headStatus)
+					}
+					return out
+				}
+				if headStatus == want {
+					wantBody := rf.Body
+					if strings.Contains(rf.Head, "chunked") {
+						wantBody = "later"
+					}
+					if string(refBody) != wantBody || refBodyErr != nil {
+						add("refusal:body_changed:"+tag, "the refusal's body reached the client as %q (err=%v), sent %q", refBody, refBodyErr, wantBody)
+					}
+				}
+			}
+			// the client closed after the final answer: the downstream proxy must see end-of-stream, nothing may be held
+			if !prompt.tDone {
+				if late.tDone {
+					add("eof_late:target:"+tag, "the downstream proxy observed end-of-stream only after the idle timeout")
+				} else {
+					add("eof_never:target:"+tag, "the downstream proxy never observed end-of-stream")
+				}
+			}
+			release(tag, true)
 			return out
 		}
 		if sc.AbortDuringDial != "" {
@@ -376,6 +913,7 @@ func run(sc scenario) (body func(), check func(r *vrt.Result) []finding) {
 			if sc.Route != "" {
 				tag += ":" + sc.Route
 			}
+			tag += sc.classTag()
 			if ts == nil {
 				add("harness:no_dial:"+tag, "the proxy never dialled the target")
 				return out
@@ -387,24 +925,19 @@ func run(sc scenario) (body func(), check func(r *vrt.Result) []finding) {
 					add("eof_never:target:"+tag, "the client was gone before the tunnel was up; the target never observed end-of-stream")
 				}
 			}
-			if !prompt.srvClosed || !prompt.pcClose || !prompt.handlerDone {
-				if late.srvClosed && late.pcClose && late.handlerDone {
-					add("release_late:"+tag, "proxy released the connections only after the idle timeout (client side closed=%v, target side closed=%v, handler done=%v at quiescence)", prompt.srvClosed, prompt.pcClose, prompt.handlerDone)
-				} else {
-					add("release_never:"+tag, "proxy never released the connections (client side closed=%v, target side closed=%v, handler done=%v)", late.srvClosed, late.pcClose, late.handlerDone)
-				}
-			}
+			release(tag, true)
+			return out
+		}
+		if sc.Prior != "" && priorNote != "" {
+			add("prior:unexpected"+sc.classTag(), "%s", priorNote)
 			return out
 		}
 		if headErr != nil || headStatus/100 != 2 {
-			add("connect:no_200", "client did not receive a 2xx for CONNECT: status=%d err=%v", headStatus, headErr)
+			add("connect:no_200"+sc.classTag(), "client did not receive a 2xx for CONNECT: status=%d err=%v", headStatus, headErr)
 			return out
 		}
 		C, T := concat(cpay), concat(tpay)
-		if sc.Head == 1 && len(cpay) > 0 || sc.Head == 3 && len(cpay) > 0 {
-			// early data is part of C; the client thread sent it before runSide
-		}
-		early := sc.Head == 1 || sc.Head == 3
+		early := sc.Head == 1 || sc.Head == 3 || sc.Head == 4
 		tag := fmt.Sprintf("first=%s/%s", sc.Initiator, sc.Mode)
 		if early {
 			tag += ":early"
@@ -418,6 +951,7 @@ func run(sc scenario) (body func(), check func(r *vrt.Result) []finding) {
 		if sc.Pause > 0 {
 			tag += ":paused"
 		}
+		tag += sc.classTag()
 		// integrity: whatever arrived is a prefix of what was sent (exactly once, in order)
 		if !bytes.HasPrefix(C, ts.got) {
 			add("corrupt:client_to_target:"+tag, "target received bytes that are not a prefix of the client's stream (got %d bytes)", len(ts.got))
@@ -426,18 +960,28 @@ func run(sc scenario) (body func(), check func(r *vrt.Result) []finding) {
 			add("corrupt:target_to_client:"+tag, "client received bytes that are not a prefix of the target's stream (got %d bytes)", len(cs.got))
 		}
 		// what is owed
-		owedToTarget := true                                          // all of C must reach the target ...
-		owedToClient := true                                          // ... and all of T the client,
-		if sc.Initiator == "client" && sc.Mode == "full" {
+		owedToTarget := true // all of C must reach the target ...
+		owedToClient := true // ... and all of T the client,
+		if initiates("client") && sc.Mode == "full" {
 			owedToClient = false // the client stopped listening
 		}
-		if sc.Initiator == "target" && sc.Mode == "full" {
+		if initiates("target") && sc.Mode == "full" {
 			owedToTarget = false
 		}
 		if sc.Mode == "abort" {
 			// a reset may discard what was still in flight in either direction: only integrity (prefix), prompt
 			// end-of-stream at the other end and the release of both connections are owed
 			owedToClient, owedToTarget = false, false
+		}
+		// a connection without CloseWrite can only be closed as a whole: when the proxy has to signal end-of-stream
+		// through such a connection, the opposite direction ends with it
+		canHalfToTarget := sc.DialConn != "bare"
+		canHalfToClient := sc.ClientConn != "bare"
+		if initiates("client") && sc.Mode == "half" && !canHalfToTarget {
+			owedToClient = false
+		}
+		if initiates("target") && sc.Mode == "half" && !canHalfToClient {
+			owedToTarget = false
 		}
 		sn := prompt
 		if owedToTarget && sn.tGot != len(C) {
@@ -455,43 +999,80 @@ func run(sc scenario) (body func(), check func(r *vrt.Result) []finding) {
 			}
 		}
 		// end-of-stream propagation: the side that did not finish first must observe EOF promptly
-		if sc.Initiator == "client" {
-			if !sn.tDone {
-				if late.tDone {
-					add("eof_late:target:"+tag, "target observed end-of-stream only after the idle timeout (client finished first)")
-				} else {
-					add("eof_never:target:"+tag, "target never observed end-of-stream although the client finished and closed")
-				}
+		eofClause := func(who string, done, lateDone bool, why string) {
+			if done {
+				return
 			}
-			if sc.Mode == "half" && !sn.cDone {
-				if late.cDone {
-					add("eof_late:client:"+tag, "client (half-closed, waiting for the reply) observed end-of-stream only after the idle timeout")
-				} else {
-					add("eof_never:client:"+tag, "client (half-closed) never observed end-of-stream")
-				}
+			if lateDone {
+				add("eof_late:"+who+":"+tag, "%s observed end-of-stream only after the idle timeout (%s)", who, why)
+			} else {
+				add("eof_never:"+who+":"+tag, "%s never observed end-of-stream (%s)", who, why)
 			}
-		} else {
-			if !sn.cDone {
-				if late.cDone {
-					add("eof_late:client:"+tag, "client observed end-of-stream only after the idle timeout (target finished first)")
-				} else {
-					add("eof_never:client:"+tag, "client never observed end-of-stream although the target finished and closed")
-				}
+		}
+		switch sc.Initiator {
+		case "client":
+			eofClause("target", sn.tDone, late.tDone, "the client finished first and closed")
+			if sc.Mode == "half" {
+				eofClause("client", sn.cDone, late.cDone, "half-closed, waiting for the reply")
 			}
-			if sc.Mode == "half" && !sn.tDone {
-				if late.tDone {
-					add("eof_late:target:"+tag, "target (half-closed) observed end-of-stream only after the idle timeout")
-				} else {
-					add("eof_never:target:"+tag, "target (half-closed) never observed end-of-stream")
-				}
+		case "target":
+			eofClause("client", sn.cDone, late.cDone, "the target finished first and closed")
+			if sc.Mode == "half" {
+				eofClause("target", sn.tDone, late.tDone, "half-closed, waiting for the rest")
+			}
+		case "both":
+			if sc.Mode == "half" {
+				eofClause("target", sn.tDone, late.tDone, "both ends half-closed after their last byte")
+				eofClause("client", sn.cDone, late.cDone, "both ends half-closed after their last byte")
+			}
+		}
+		// the end that did not finish first is owed an orderly end-of-stream (a FIN after the data), not a reset, as
+		// long as the proxy is able to send one
+		if sc.Mode != "abort" && sc.Initiator != "both" {
+			if sc.Initiator == "client" && canHalfToTarget && sn.tDone && !ts.eof {
+				add("eof_unclean:target:"+tag, "the client finished and closed in an orderly way; the target's stream ended with %v instead of end-of-stream", ts.readErr)
+			}
+			if sc.Initiator == "target" && canHalfToClient && sn.cDone && !cs.eof {
+				add("eof_unclean:client:"+tag, "the target finished and closed in an orderly way; the client's stream ended with %v instead of end-of-stream", cs.readErr)
+			}
+		}
+		// end-of-stream is the other end's doing: nobody may be told that the stream has ended before the other end
+		// has stopped sending (unless the proxy had no other way to pass on an end-of-stream, see above)
+		if sc.Mode != "abort" {
+			if ts.eof && (cs.shutTick == 0 || ts.eofTick < cs.shutTick) && !(initiates("target") && sc.Mode == "half" && !canHalfToClient) {
+				add("eof_spurious:target:"+tag, "the target observed end-of-stream although the client had not stopped sending (target eof at event %d, client shut down at event %d)", ts.eofTick, cs.shutTick)
+			}
+			if cs.eof && (ts.shutTick == 0 || cs.eofTick < ts.shutTick) && !(initiates("client") && sc.Mode == "half" && !canHalfToTarget) {
+				add("eof_spurious:client:"+tag, "the client observed end-of-stream although the target had not stopped sending (client eof at event %d, target shut down at event %d)", cs.eofTick, ts.shutTick)
 			}
 		}
 		// release
-		if !sn.srvClosed || !sn.pcClose || !sn.handlerDone {
-			if late.srvClosed && late.pcClose && late.handlerDone {
-				add("release_late:"+tag, "proxy released the connections only after the idle timeout (client side closed=%v, target side closed=%v, handler done=%v at quiescence)", sn.srvClosed, sn.pcClose, sn.handlerDone)
-			} else {
-				add("release_never:"+tag, "proxy never released the connections (client side closed=%v, target side closed=%v, handler done=%v)", late.srvClosed, late.pcClose, late.handlerDone)
+		release(tag, true)
+		if sc.Second {
+			// the other tunnel: both of its ends half-close after their last byte, so everything is owed
+			tag2 := "second_tunnel"
+			C2, T2 := concat(c2pay), concat(t2pay)
+			if head2Err != nil || head2Status/100 != 2 || cs2 == nil || ts2 == nil {
+				add("connect:no_200:"+tag2, "the second client did not receive a 2xx for CONNECT: status=%d err=%v", head2Status, head2Err)
+				return out
+			}
+			if !bytes.HasPrefix(C2, ts2.got) {
+				add("corrupt:client_to_target:"+tag2, "the second target received bytes that are not a prefix of the second client's stream (got %d bytes)", len(ts2.got))
+			}
+			if !bytes.HasPrefix(T2, cs2.got) {
+				add("corrupt:target_to_client:"+tag2, "the second client received bytes that are not a prefix of the second target's stream (got %d bytes)", len(cs2.got))
+			}
+			if sn.t2Got != len(C2) {
+				add("lost:client_to_target:"+tag2, "the second target had %d of %d bytes at quiescence (%d in the end)", sn.t2Got, len(C2), late.t2Got)
+			}
+			if sn.c2Got != len(T2) {
+				add("lost:target_to_client:"+tag2, "the second client had %d of %d bytes at quiescence (%d in the end)", sn.c2Got, len(T2), late.c2Got)
+			}
+			if !sn.t2Done || !sn.c2Done {
+				add("eof_late:"+tag2, "end-of-stream had not reached both ends of the second tunnel at quiescence (client done=%v, target done=%v)", sn.c2Done, sn.t2Done)
+			}
+			if !sn.srv2Closed || !sn.pc2C {
+				add("release_late:"+tag2, "the connections of the second tunnel were not released at quiescence (client side closed=%v, target side closed=%v)", sn.srv2Closed, sn.pc2C)
 			}
 		}
 		return out
@@ -610,7 +1191,149 @@ func scenarios(tier string) []scenario {
 		}
 	}
 	out = append(out, scenario{DialErr: true}, scenario{DialErr: true, Route: "downstream"})
+	return append(out, auditScenarios(tier)...)
+}
+
+// auditScenarios are the families added by the coverage audit (checks/c04/AUDIT.md). Scenarios marked Lite are
+// explored with one deviation less than the tier's bound.
+func auditScenarios(tier string) []scenario {
+	var out []scenario
+	thorough := tier == "thorough"
+	inits := []string{"client", "target"}
+	modes := []string{"full", "half"}
+	// A. capability classes of the two connections the proxy copies between: the standard library takes a different
+	// copy path for each (WriterTo / ReaderFrom / plain loop through the bufio buffers), and only some can half-close.
+	for _, cc := range []string{"", "cw", "bare"} {
+		for _, dc := range []string{"", "cw", "bare"} {
+			if cc == "" && dc == "" {
+				continue
+			}
+			oneSided := cc == "" || dc == ""
+			if !thorough && !oneSided && !(cc == "bare" && dc == "bare") {
+				continue
+			}
+			for _, route := range []string{"", "downstream-coalesced"} {
+				if route != "" && !oneSided && !(thorough && cc == "bare" && dc == "bare") {
+					continue
+				}
+				for _, in := range inits {
+					for _, mode := range modes {
+						// simultaneous small chunks, a conversation with early data, chunks above the bufio size
+						if route == "" || thorough {
+							out = append(out, scenario{Head: 0, CChunks: []int{1, 2}, TChunks: []int{3, 1}, Initiator: in, Mode: mode, Route: route, ClientConn: cc, DialConn: dc, Lite: thorough && !oneSided && cc != dc})
+						}
+						if mode == "half" || thorough {
+							out = append(out, scenario{Head: 1, CChunks: []int{2, 1, 1}, TChunks: []int{1, 1}, Initiator: in, Mode: mode, Route: route, PingPong: true, ClientConn: cc, DialConn: dc, Lite: !thorough || !oneSided})
+						}
+						if mode == "half" && (route == "" || thorough) {
+							out = append(out, scenario{Head: 0, CChunks: []int{4097, 4200}, TChunks: []int{4500, 4100}, Initiator: in, Mode: mode, Route: route, ClientConn: cc, DialConn: dc, Lite: true})
+						}
+					}
+				}
+			}
+		}
+	}
+	// the proxy behind a traffic-shaping listener (martian's -traffic-shaping flag), default settings; a short
+	// timeout keeps the number of bucket ticks per execution small
+	for _, in := range inits {
+		for _, mode := range modes {
+			out = append(out, scenario{Head: 1, CChunks: []int{2, 1, 1}, TChunks: []int{1, 1}, Initiator: in, Mode: mode, PingPong: true, ClientConn: "ts", Timeout: 20, Lite: true})
+			out = append(out, scenario{Head: 0, CChunks: []int{1, 2}, TChunks: []int{3, 1}, Initiator: in, Mode: mode, ClientConn: "ts", Timeout: 20, Lite: true})
+		}
+	}
+	// B. the downstream proxy does not confirm the tunnel
+	for _, f := range []string{"close", "garbage", "partial", "refuse:403-close", "refuse:407-keepalive", "refuse:502-keepalive-0", "refuse:503-keepalive-chk"} {
+		out = append(out, scenario{Route: "downstream", DownFail: f, Initiator: "client", Mode: "full"})
+	}
+	// C. tunnels that outlive the proxy's timeout although no silence comes near it
+	for _, route := range []string{"", "downstream"} {
+		for _, in := range inits {
+			out = append(out, scenario{Head: 0, CChunks: []int{1, 1, 1, 1}, TChunks: []int{1, 1, 1, 1}, Initiator: in, Mode: "half", Route: route, PingPong: true, Timeout: 30, Gap: 11})
+			if route == "" {
+				// only one end speaks: a long download, a long upload
+				out = append(out, scenario{Head: 0, CChunks: []int{}, TChunks: []int{1, 1, 1, 1}, Initiator: in, Mode: "half", Timeout: 30, Gap: 11})
+				out = append(out, scenario{Head: 0, CChunks: []int{1, 1, 1, 1}, TChunks: []int{}, Initiator: in, Mode: "half", Timeout: 30, Gap: 11})
+			}
+			if route == "" || thorough {
+				out = append(out, scenario{Head: 0, CChunks: []int{1, 1}, TChunks: []int{1, 1}, Initiator: in, Mode: "half", Route: route, PingPong: true, Gap: 100})
+				out = append(out, scenario{Head: 0, CChunks: []int{1, 1, 1, 1}, TChunks: []int{2, 2, 2, 2}, Initiator: in, Mode: "half", Route: route, Timeout: 30, Gap: 11})
+			}
+		}
+	}
+	// D. back-pressure: one end is busy sending and does not read; the other direction must keep flowing
+	for _, stall := range []string{"target", "client"} {
+		for _, in := range inits {
+			for _, route := range []string{"", "downstream"} {
+				if route != "" && !thorough && in != stall {
+					continue
+				}
+				out = append(out, scenario{Head: 0, CChunks: []int{3000, 3000, 3000}, TChunks: []int{3000, 3000, 3000}, Initiator: in, Mode: "half", Route: route, Cap: 2048, Stall: stall})
+			}
+		}
+	}
+	// E. the CONNECT is not the first exchange on its connection
+	for _, prior := range []string{"502", "get", "get-pipelined"} {
+		for _, head := range []int{0, 1, 2} {
+			for _, in := range inits {
+				if !thorough && (head == 2 || in == "target") {
+					continue
+				}
+				out = append(out, scenario{Head: head, CChunks: []int{1, 2}, TChunks: []int{3, 1}, Initiator: in, Mode: "half", Prior: prior, Lite: in == "target"})
+			}
+		}
+		out = append(out, scenario{Head: 2, CChunks: []int{1, 2}, TChunks: []int{3, 1}, Initiator: "target", Mode: "half", Prior: prior, Lite: true})
+		out = append(out, scenario{Head: 1, CChunks: []int{4096, 2}, TChunks: []int{3, 1}, Initiator: "client", Mode: "half", PingPong: true, Prior: prior})
+		out = append(out, scenario{Head: 1, CChunks: []int{1, 2}, TChunks: []int{3, 1}, Initiator: "client", Mode: "half", Route: "downstream-coalesced", Prior: prior, Lite: true})
+	}
+	// F. other spellings of the CONNECT request, all routes
+	for _, sp := range []string{"http10", "close", "proxyconn", "ipv6"} {
+		for _, route := range []string{"", "downstream"} {
+			for _, in := range inits {
+				out = append(out, scenario{Head: 1, CChunks: []int{1, 2}, TChunks: []int{3, 1}, Initiator: in, Mode: "half", Route: route, Spelling: sp, Lite: true})
+			}
+		}
+	}
+	// G. two tunnels through one proxy at the same time, each with chunks above the buffer sizes in both directions
+	for _, in := range inits {
+		out = append(out, scenario{Head: 0, CChunks: []int{4097, 4200}, TChunks: []int{4500, 4100}, Initiator: in, Mode: "half", Second: true, Lite: !thorough})
+	}
+	out = append(out, scenario{Head: 1, CChunks: []int{1, 2}, TChunks: []int{3, 1}, Initiator: "client", Mode: "half", Second: true, Lite: true})
+	// H. both ends finish at the same time
+	for _, mode := range modes {
+		for _, route := range []string{"", "downstream-coalesced"} {
+			out = append(out, scenario{Head: 0, CChunks: []int{1, 2}, TChunks: []int{3, 1}, Initiator: "both", Mode: mode, Route: route, Lite: !thorough && route != ""})
+			out = append(out, scenario{Head: 1, CChunks: []int{5000, 3}, TChunks: []int{4097}, Initiator: "both", Mode: mode, Route: route})
+		}
+	}
+	// I. early data and coalesced first target bytes that fill the 4096-byte bufio buffers exactly, with the head in front
+	hl := len(connectHead)
+	for _, n := range []int{4096 - hl - 1, 4096 - hl, 4096 - hl + 1} {
+		out = append(out, scenario{Head: 1, CChunks: []int{n, 2}, TChunks: []int{3, 1}, Initiator: "client", Mode: "half", PingPong: true})
+	}
+	dl := len("HTTP/1.1 200 OK\r\n\r\n")
+	for _, n := range []int{4096 - dl - 1, 4096 - dl, 4096 - dl + 1, 5000} {
+		out = append(out, scenario{Head: 0, CChunks: []int{2, 1}, TChunks: []int{n, 2}, Initiator: "target", Mode: "half", Route: "downstream-coalesced"})
+	}
+	// I2. the CONNECT head split mid-line with early data behind its second part
+	for _, in := range inits {
+		out = append(out, scenario{Head: 4, CChunks: []int{1, 2}, TChunks: []int{3, 1}, Initiator: in, Mode: "half"})
+		out = append(out, scenario{Head: 4, CChunks: []int{4096, 2}, TChunks: []int{3, 1}, Initiator: in, Mode: "half", PingPong: true})
+	}
+	// J. a failing response modifier on the CONNECT answer does not stop the tunnel
+	for _, route := range []string{"", "downstream"} {
+		out = append(out, scenario{Head: 1, CChunks: []int{1, 2}, TChunks: []int{3, 1}, Initiator: "client", Mode: "half", Route: route, ResModErr: true, Lite: !thorough})
+	}
+	// K. unreachable target, other shapes of the request around it
+	out = append(out, scenario{DialErr: true, Spelling: "http10"}, scenario{DialErr: true, ClientConn: "bare"}, scenario{DialErr: true, Prior: "get"})
 	return out
+}
+
+// auditBoundCut says by how much the deviation bound of an audit scenario is lowered (long executions, many threads).
+func (s scenario) auditBoundCut(b int) int {
+	if s.Lite && b > 1 {
+		return 1
+	}
+	return 0
 }
 
 type shardOut struct {
@@ -627,6 +1350,23 @@ func main() {
 	bound := 2
 	if tier == "thorough" {
 		bound = 3
+	}
+	// development aids: C04_ONLY=<substring of the scenario description> restricts the run, C04_BOUND=<n> overrides the
+	// deviation bound, C04_LIST=1 prints the scenarios
+	if only := os.Getenv("C04_ONLY"); only != "" {
+		var keep []scenario
+		for _, sc := range scen {
+			if strings.Contains(sc.String(), only) {
+				keep = append(keep, sc)
+			}
+		}
+		scen = keep
+	}
+	if os.Getenv("C04_LIST") != "" {
+		for i, sc := range scen {
+			fmt.Printf("%4d %s\n", i, sc)
+		}
+		return
 	}
 	if rp := os.Getenv("VERIF_REPLAY"); rp != "" {
 		// replay one recorded violation: same scenario, same schedule, with a full trace
@@ -688,6 +1428,11 @@ func main() {
 			if big && !(bidi && tier == "quick") {
 				b-- // long executions; the simultaneous-large-chunk scenarios keep the full bound in quick
 			}
+			b -= sc.auditBoundCut(b)
+			if v := os.Getenv("C04_BOUND"); v != "" {
+				fmt.Sscan(v, &b)
+			}
+			t0 := time.Now()
 			body, check := run(sc)
 			seen := map[string]bool{}
 			st := vrt.Explore(vrt.ExploreConfig{Bound: b, Deadline: time.Now().Add(per), Config: vrt.Config{MaxPoints: 50000}}, body, func(prefix []int, r *vrt.Result) bool {
@@ -707,6 +1452,9 @@ func main() {
 			if st.EngineError != "" {
 				fmt.Fprintln(os.Stderr, "ENGINE ERROR:", st.EngineError)
 				os.Exit(2)
+			}
+			if os.Getenv("C04_STATS") != "" {
+				fmt.Fprintf(os.Stderr, "STAT %6d execs %6.1fs bound %d completed %d {%s}\n", st.Execs, time.Since(t0).Seconds(), b, st.BoundCompleted, sc)
 			}
 			out.Counters["scenarios"]++
 			out.Counters["executions"] += int64(st.Execs)
@@ -755,6 +1503,9 @@ func main() {
 			fmt.Fprintf(os.Stderr, "shard %d failed: %v\n%s\n", i, errs[i], outs[i])
 			os.Exit(2)
 		}
+		if os.Getenv("C04_STATS") != "" {
+			fmt.Fprint(os.Stderr, outs[i])
+		}
 		var so shardOut
 		b, _ := os.ReadFile(f)
 		if err := json.Unmarshal(b, &so); err != nil {
@@ -788,8 +1539,11 @@ func main() {
 	rep.Coverage["traces_validated_against_impl"] = rep.Counter("executions")
 	rep.Coverage["bound_completed"] = minBound
 	rep.Coverage["exhaustive"] = rep.Incomplete == ""
-	rep.Coverage["bounds"] = fmt.Sprintf("%d scenarios (4 early-data placements x client/target chunk lists {[],[3],[1,2]} x who finishes first x full/half close; large sizes 4097/5003/32769 bytes; short-read variants; dial error); downstream-proxy route; silent periods of 11 s and 200 s of virtual time before the last chunks; every schedule with <= %d deviations (one less for large sizes)", len(scen), bound)
-	rep.Coverage["explanation"] = "each execution runs the real proxy.go CONNECT path over simnet under the gosim scheduler; prompt = first quiescent point with zero virtual time elapsed (no timeout can have fired)"
-	rep.Assumptions = []string{"simnet models TCP (coalescing reads, FIN on close / CloseWrite, writes to a closed peer fail from the second write on)", "real-time pauses are represented by interleavings"}
+	rep.Coverage["evaluations"] = rep.Counter("executions")
+	rep.Coverage["distinct_nontrivial"] = rep.Counter("scenarios_with_multiple_outcomes")
+	rep.Coverage["rule"] = "a case is a scenario (early-data placement, chunk lists of both directions, who finishes first and how, route, connection capability classes, history on the connection, request spelling, timing, buffer capacity); all its executions are the schedules with at most the stated number of deviations from the default schedule, and the oracle is evaluated on every one of them; a scenario counts as non-trivial when its observation log depends on the schedule (at least two distinct logs)"
+	rep.Coverage["bounds"] = fmt.Sprintf("%d scenarios (5 early-data placements x client/target chunk lists {[],[3],[1,2]} x who finishes first {client, target, both} x full/half close/reset; large sizes 4097/5003/32769 bytes and sizes that fill the 4096-byte buffers exactly; short-read variants; dial error); downstream-proxy route incl. a downstream proxy that closes, answers garbage or refuses (403/407/502/503); connection capability classes {TCP-like, CloseWrite only, net.Conn only} on either side and a traffic-shaping listener; silent periods of 11 s and 200 s before the last chunks and tunnels that outlive SetTimeout(30 s) / the default timeout with 11 s / 100 s gaps; socket buffers capped at 2048 bytes with a stalled reader; CONNECT after a 502 / a GET / pipelined behind a GET; HTTP/1.0, Connection: close, Proxy-Connection, IPv6 spellings; a second tunnel at the same time; every schedule with <= %d deviations (one less for large sizes and for the scenarios marked lite)", len(scen), bound)
+	rep.Coverage["explanation"] = "each execution runs the real proxy.go CONNECT path over simnet under the gosim scheduler; prompt = first quiescent point with zero virtual time elapsed (no timeout can have fired), or one virtual second after the last scripted pause"
+	rep.Assumptions = []string{"simnet models TCP (coalescing reads, FIN on close / CloseWrite, writes to a closed peer fail from the second write on)", "real-time pauses are represented by interleavings and by scripted periods of virtual time", "a simnet write with an expired write deadline still succeeds while buffer space is left (the kernel would refuse it): a tunnel cut by the deadline shows through the reading side only"}
 	rep.Finish()
 }
